@@ -31,8 +31,9 @@ RULE = (
     "directory_split of the writer, directory_split of the later reader in "
     "{same, 'auto'}, seeds). For each scenario ALL crash points of the "
     "writing process are enumerated from a logged dry run: death before each "
-    "file-system mutation under the cache directory and death inside each "
-    "write after every byte count. Oracle, evaluated in a fresh process per "
+    "file-system mutation under the cache directory (mkdir, open, write into "
+    "the user-space buffer, flush, close, replace/rename, unlink) and death "
+    "inside each flush after every byte count that had reached the OS. Oracle, evaluated in a fresh process per "
     "crash point: a new optimizer on the directory answers the same query "
     "with a complete tree of that query and does not raise; if it ran no "
     "trial its path equals the old or the new stored answer exactly; entries "
@@ -134,46 +135,69 @@ class Injector:
         real_mkdir, real_replace, real_rename, real_unlink = os.mkdir, os.replace, os.rename, os.unlink
 
         class WFile:
+            """Stands in for the buffered file object: bytes handed to write()
+            stay in a user-space buffer (lost if the process dies) until a
+            flush / close hands them to the OS, byte by byte as far as the
+            crash point allows."""
+
+            BUFSIZE = 8192
+
             def __init__(self, path, mode):
                 raw_mode = mode.replace("b", "").replace("t", "")
                 self.path = path
                 inj.op("open:" + mode, path)
                 self.raw = io.FileIO(path, raw_mode if raw_mode else "w")
+                self.buf = bytearray()
 
-            def write(self, data):
-                data = bytes(data)
-                k = inj.op("write", self.path, len(data))
+            def _flush(self):
+                if not self.buf:
+                    return
+                data = bytes(self.buf)
+                k = inj.op("flush", self.path, len(data))
                 if inj.crash is not None and inj.crash[0] == k and inj.crash[1] is not None:
                     self.raw.write(data[: inj.crash[1]])
                     os._exit(EXIT_CRASH)
                 n = 0
                 while n < len(data):
                     n += self.raw.write(data[n:])
+                self.buf.clear()
+
+            def write(self, data):
+                data = bytes(data)
+                inj.op("write", self.path, len(data))
+                self.buf += data
+                if len(self.buf) > self.BUFSIZE:
+                    self._flush()
                 return len(data)
 
             def read(self, *a):
+                self._flush()
                 return self.raw.read(*a)
 
             def readline(self, *a):
+                self._flush()
                 return self.raw.readline(*a)
 
             def readinto(self, b):
+                self._flush()
                 return self.raw.readinto(b)
 
             def seek(self, *a):
+                self._flush()
                 return self.raw.seek(*a)
 
             def tell(self):
-                return self.raw.tell()
+                return self.raw.tell() + len(self.buf)
 
             def flush(self):
-                pass
+                self._flush()
 
             def fileno(self):
                 return self.raw.fileno()
 
             def close(self):
                 if not self.raw.closed:
+                    self._flush()
                     inj.op("close", self.path)
                     self.raw.close()
 
@@ -338,7 +362,7 @@ def list_crash_points(log):
     pts = []
     for k, (kind, path, nbytes) in enumerate(log):
         pts.append((k, None))
-        if kind == "write" and nbytes:
+        if kind == "flush" and nbytes:
             for b in range(1, nbytes):
                 pts.append((k, b))
     pts.append((len(log), None))  # after everything: no crash at all happens
